@@ -192,7 +192,17 @@ def gen_lag(rng, flavour="mix"):
     expire = rng.choice([1000, 604800])
     mindist = rng.choice([0, 0, 0, 0, 1, 5])
     clusters = [1] if rng.random() < 0.7 else [1, 2]
-    h = Hist(rng, intervals, expire, mindist, clusters, "deny", set())
+    # configuration path of the probe (every option goes through the real Configure): viper.Set per key, a TOML document
+    # read with viper.ReadConfig (@toml), or that document without intervals / expire-group / min-distance (@dflt: the
+    # documented defaults 10 / 604800 / 0 are in force and are what the header tells the model)
+    via = ""
+    r = rng.random()
+    if r < 0.10:
+        intervals, expire, mindist, via = 10, 604800, 0, "@dflt"
+    elif r < 0.25:
+        via = "@toml"
+    h = Hist(rng, intervals, expire, mindist, clusters, "deny" + via, set())
+    h.tags.add("via:" + (via[1:] or "set"))
     topics = list(range(1, rng.choice([1, 1, 2, 3, 4]) + 1))
     groups = list(range(1, rng.choice([1, 1, 2, 3]) + 1))
     pcount, boff, order = {}, {}, {}
@@ -266,6 +276,10 @@ def gen_lag(rng, flavour="mix"):
         elif off == b:
             h.tags.add("consumer-at")
         ts = h.now * 1000 - rng.choice([0, 0, 1, 500, 999, 1000, 1001, 4999, 5000, 5001])
+        if rng.random() < 0.06:
+            # around the too-old cut-off of the configured expire-group, and at a day / an hour (other plausible defaults)
+            ts = (h.now - rng.choice([h.expire, h.expire, 86400, 3600])) * 1000 + rng.choice([-1, 0, 1])
+            h.tags.add("old-timestamp")
         h.add("C", h.now, c, g, t, p, off, o, ts)
         return c, g
 
